@@ -20,13 +20,17 @@ type Profile struct {
 	OpenQ        bool  // keep queries open across operations
 	MaxOpenQ     int
 	NoFillerBias bool
+	RelBias      int  // percent chance to add a relation component to ID-based creations/additions
+	Burst        bool // open bursts of queries up to the limit of 64
+	ObsPrefix    int  // observers created (and mostly registered) at the start of a case
 }
 
 // Gen draws operations given the model state.
 type Gen struct {
-	P    *Profile
-	It   *Interp
-	qSeq int
+	P     *Profile
+	It    *Interp
+	qSeq  int
+	burst int
 }
 
 var defaultCaps = []int{1, 1, 2, 3, 4, 8, 16, 64}
@@ -136,6 +140,18 @@ func (g *Gen) Next(t *rapid.T) *Op {
 	add("qClose", g.P.OpenQ && len(m.Open) > 0)
 	add("misuse", g.P.Misuse)
 	add("read", true)
+	add("dumpLoad", !locked)
+	if g.P.ObsPrefix > 0 && g.It.Step < g.P.ObsPrefix && len(m.Obs) < 8 {
+		return g.genObs(t)
+	}
+	if g.burst > 0 && g.P.OpenQ && nLive > 0 && m.OpenQ < g.P.MaxOpenQ {
+		g.burst--
+		op := g.genQuery(t)
+		op.K = "qOpen"
+		g.qSeq++
+		op.Q = g.qSeq
+		return op
+	}
 	if len(cs) == 0 {
 		return nil
 	}
@@ -196,8 +212,13 @@ func (g *Gen) Next(t *rapid.T) *Op {
 		op = g.genEmit(t)
 	case "res":
 		op = &Op{K: "res", E: rapid.IntRange(0, 3).Draw(t, "res"), Mode: rapid.IntRange(0, 1).Draw(t, "resMode")}
+	case "dumpLoad":
+		op = &Op{K: "dumpLoad", Mode: rapid.IntRange(0, 1).Draw(t, "dumpFresh")}
 	case "qOpen":
 		op = g.genQuery(t)
+		if g.P.Burst && rapid.IntRange(0, 9).Draw(t, "burst") == 0 {
+			g.burst = rapid.IntRange(10, 70).Draw(t, "burstLen")
+		}
 		if op != nil {
 			op.K = "qOpen"
 			g.qSeq++
@@ -342,7 +363,7 @@ func (g *Gen) genNew(t *rapid.T) *Op {
 				}
 			}
 		} else {
-			op.Comps = subset(t, 0xffff, 0, 5, "comps")
+			op.Comps = g.biasRel(t, subset(t, 0xffff, 0, 5, "comps"), 0)
 			op.Rels = g.relsFor(t, op.Comps)
 		}
 		for i := range op.Rels {
@@ -494,7 +515,7 @@ func (g *Gen) genAdd(t *rapid.T, s int) *Op {
 		op.Rem = subset(t, 0xffff&^ExInsts[op.M].Mask, 0, 2, "exRemoves") // irrelevant for Add
 	}
 	if op.P == PUnsafe {
-		op.Comps = subset(t, free, 1, 4, "comps")
+		op.Comps = g.biasRel(t, subset(t, free, 1, 4, "comps"), ^free)
 		op.Rels = g.relsFor(t, op.Comps)
 		for i := range op.Rels {
 			if op.Rels[i].S == 0 {
@@ -925,7 +946,11 @@ func (g *Gen) genBatch(t *rapid.T, k string) *Op {
 // genObs draws an observer specification.
 func (g *Gen) genObs(t *rapid.T) *Op {
 	os := &ObsSpec{Inst: -1}
+	m := g.m()
 	os.Ev = rapid.SampledFrom([]int{EvCreate, EvRemoveEntity, EvAddComps, EvAddComps, EvRemoveComps, EvRemoveComps, EvSetComps, EvAddRels, EvRemoveRels, EvCustom0, EvCustom1}).Draw(t, "event")
+	if len(m.Obs) > 0 && rapid.Bool().Draw(t, "sameEvent") {
+		os.Ev = rapid.SampledFrom(m.Obs).Draw(t, "like").Ev
+	}
 	relEv := os.Ev == EvAddRels || os.Ev == EvRemoveRels
 	allowed := uint16(0xffff)
 	if relEv {
@@ -934,23 +959,28 @@ func (g *Gen) genObs(t *rapid.T) *Op {
 	if rapid.IntRange(0, 2).Draw(t, "typedObs") == 0 {
 		l := instsWithin(allowed, func(i int) uint16 { return ObsInsts[i].Mask }, len(ObsInsts))
 		if len(l) > 0 {
-			os.Inst = rapid.SampledFrom(l).Draw(t, "obsInst")
+			os.Inst = pickByArity(t, l, func(i int) int { return ObsInsts[i].Arity }, "obsInst")
 		}
 	}
 	c := os.C()
-	os.For = subset(t, allowed&^c, 0, 2, "for")
+	nFor := rapid.SampledFrom([]int{0, 0, 0, 1, 1, 1, 1, 2, 2}).Draw(t, "nFor")
+	if os.Inst >= 0 {
+		nFor = rapid.SampledFrom([]int{0, 0, 0, 1}).Draw(t, "nForTyped")
+	}
+	os.For = subset(t, allowed&^c, nFor, nFor, "for")
 	c = os.C()
-	os.With = subset(t, 0xffff&^c, 0, 2, "with")
-	switch rapid.IntRange(0, 5).Draw(t, "exclude") {
+	nWith := rapid.SampledFrom([]int{0, 0, 0, 0, 1, 1, 2}).Draw(t, "nWith")
+	os.With = subset(t, 0xffff&^c, nWith, nWith, "with")
+	switch rapid.IntRange(0, 9).Draw(t, "exclude") {
 	case 0:
 		os.Exclusive = true
-	case 1, 2:
+	case 1, 2, 3:
 		os.Without = subset(t, 0xffff&^c&^maskOf(os.With), 1, 2, "without")
 	}
 	if rapid.IntRange(0, 7).Draw(t, "unregInCb") == 0 {
 		os.UnregP1 = 1 + rapid.IntRange(0, len(g.m().Obs)).Draw(t, "unregWhom")
 	}
-	return &Op{K: "obsNew", OS: os, Mode: 1}
+	return &Op{K: "obsNew", OS: os, Mode: rapid.SampledFrom([]int{1, 1, 1, 0}).Draw(t, "registerNow")}
 }
 
 func (g *Gen) genObsReg(t *rapid.T) *Op {
@@ -1055,4 +1085,17 @@ func liveFilters(m *Model) []int {
 		}
 	}
 	return l
+}
+
+// biasRel adds a relation component (not in forbidden) with the profile's probability.
+func (g *Gen) biasRel(t *rapid.T, list []int, forbidden uint16) []int {
+	if g.P.RelBias == 0 || rapid.IntRange(0, 99).Draw(t, "relBias") >= g.P.RelBias {
+		return list
+	}
+	have := maskOf(list)
+	cand := listOf(comps.RelMask &^ have &^ forbidden)
+	if len(cand) == 0 {
+		return list
+	}
+	return append(list, rapid.SampledFrom(cand).Draw(t, "biasRelComp"))
 }
